@@ -1030,3 +1030,47 @@ Theorem zsh_adversarial_innocuous c d s1 :
     skeleton (events sh_step ZB s1) = skeleton (events sh_step ZB s2) /\
     final sh_step ZB s1 = final sh_step ZB s2.
 Proof. intros Ht H. apply (zsh_text_invariance c d (innocuous_desc d) s1 Ht); [symmetry; apply erase_innocuous|exact H]. Qed.
+
+(** ---- non-vacuity and the class boundary ---- *)
+Definition zl_adv_text : bytes := lit "it's a ""$(rm -rf /)"" `x` [y]: \ end".
+Definition zl_adv : cdesc :=
+  mkCd (Some zl_adv_text) false [mkAd (Some zl_adv_text) false []]
+       [mkCd (Some zl_adv_text) false [mkAd (Some zl_adv_text) false []]
+             [mkCd None false [mkAd (Some zl_adv_text) false [Some zl_adv_text; None; Some zl_adv_text]; mkAd (Some zl_adv_text) false []] []];
+        mkCd (Some zl_adv_text) false [mkAd None false [Some zl_adv_text]; mkAd (Some zl_adv_text) false []] []].
+Definition zl_inn : cdesc := innocuous_desc zl_adv.
+
+Example zsh_text_invariance_hyps :
+  ztame_cmd zx_root = true /\ erase_desc zl_adv = erase_desc zl_inn /\ zl_adv <> zl_inn /\
+  exists s1 s2, zsh_script zx_root zl_adv = Some s1 /\ zsh_script zx_root zl_inn = Some s2 /\ s1 <> s2.
+Proof.
+  split; [reflexivity|]. split; [reflexivity|]. split; [discriminate|].
+  destruct (zsh_script zx_root zl_adv) as [s1|] eqn:E1; [|vm_compute in E1; discriminate].
+  destruct (zsh_script zx_root zl_inn) as [s2|] eqn:E2; [|vm_compute in E2; discriminate].
+  exists s1, s2. split; [reflexivity|]. split; [reflexivity|].
+  intros E. subst s2.
+  assert (Hb : match zsh_script zx_root zl_adv, zsh_script zx_root zl_inn with
+               | Some a, Some b => beq a b | _, _ => true end = false) by (vm_compute; reflexivity).
+  rewrite E1, E2, beq_refl in Hb. discriminate.
+Qed.
+
+(** class boundary: an option NAME with a single quote is written unescaped; it closes the quoted spec early and the help
+    after it is read outside the quotes, where a space separates words *)
+Definition zl_untame_arg : arg := mkArg (lit "o") None (Some (lit "a'b")) [] [] ASetTrue None None None false false false.
+Definition zl_untame_cmd : cmd := mkCmd (lit "p") [] [zl_untame_arg] [] (Some (lit "p")) false false sets0 sets0.
+Lemma zsh_untamed_name_refuted :
+  exists c d1 d2 s1 s2,
+    ztame_cmd c = false /\ erase_desc d1 = erase_desc d2 /\
+    zsh_script c d1 = Some s1 /\ zsh_script c d2 = Some s2 /\
+    skeleton (events sh_step ZB s1) <> skeleton (events sh_step ZB s2).
+Proof.
+  exists zl_untame_cmd, (mkCd None false [mkAd (Some (lit "x y")) false []] []),
+         (mkCd None false [mkAd (Some (lit "xy")) false []] []).
+  destruct (zsh_script zl_untame_cmd (mkCd None false [mkAd (Some (lit "x y")) false []] [])) as [s1|] eqn:E1;
+    [|vm_compute in E1; discriminate].
+  destruct (zsh_script zl_untame_cmd (mkCd None false [mkAd (Some (lit "xy")) false []] [])) as [s2|] eqn:E2;
+    [|vm_compute in E2; discriminate].
+  exists s1, s2. split; [reflexivity|]. split; [reflexivity|]. split; [reflexivity|]. split; [reflexivity|].
+  vm_compute in E1. vm_compute in E2. apply Some_inj in E1. apply Some_inj in E2. subst s1 s2.
+  vm_compute. discriminate.
+Qed.
